@@ -157,7 +157,8 @@ class RecorderRoles(object):
             _self_attr(n) == self.playback for n in ast.walk(m.node))]
         self.reader = self._onef('replay-reader', readers)
         # ---- operation executor: method calling its first non-self parameter and recording the operation alias
-        opx = [m for m in c.methods.values() if m is not self.executor and len(m.params) >= 2 and any(
+        op_called = called_methods(self.closures['operation'][2])
+        opx = [m for m in c.methods.values() if m is not self.executor and m.name in op_called and len(m.params) >= 2 and any(
             isinstance(n, ast.Call) and isinstance(n.func, ast.Name) and n.func.id == m.params[1]
             for n in walk_own(m.node)) and any(isinstance(n, ast.Try) for n in walk_own(m.node))]
         self.op_executor = self._onef('operation-executor', opx)
